@@ -44,6 +44,7 @@ type ElemAddr struct {
 	frame  int
 	slice  *Term
 	idx    *Term
+	path   []PathEl
 }
 
 type ClosureV struct {
@@ -295,6 +296,10 @@ func (x *Exec) oblige(st *State, kind, label string, props []string, goal *Term,
 			st.assume(goal)
 		}
 	}()
+	goal = simplifyUnder(goal, st.pc)
+	if goal.Kind == KBool && goal.B {
+		return
+	}
 	name := x.rootKey + "#" + kind + "#" + label
 	o := &Obl{Name: name, Func: x.rootKey, Kind: kind, Label: label, Props: props, Assumes: st.pc.list(), Goal: goal}
 	if pos.IsValid() {
@@ -489,7 +494,7 @@ func (x *Exec) load(st *State, addr Value, t types.Type, pos token.Pos) Value {
 		}
 		return x.descend(cur, a.path)
 	case *ElemAddr:
-		return Select(slArr(a.slice), a.idx, elemSortOfSlice(x.w, a.slice.Sort))
+		return x.descend(Select(slArr(a.slice), a.idx, elemSortOfSlice(x.w, a.slice.Sort)), a.path)
 	case *Term:
 		// boxed pointer used as data: *p reads the boxed value
 		if strings.HasPrefix(a.Sort, "Ptr_") {
@@ -572,6 +577,16 @@ func (x *Exec) update(cur Value, path []PathEl, v Value) Value {
 }
 
 func (x *Exec) store(st *State, addr Value, v Value, pos token.Pos) {
+	if pv, ok := v.(*PtrV); ok && len(pv.path) == 0 {
+		// a pointer to a local struct stored as data: box the current content
+		// (assumption: the pointee is not mutated afterwards through another alias)
+		if named, ok := pv.cell.typ.(*types.Named); ok && !isHandleType(named) {
+			if _, isSt := named.Underlying().(*types.Struct); isSt {
+				ps := x.w.sortOf(types.NewPointer(named))
+				v = Mk("box_"+ps, x.mustTerm(x.load(st, pv, nil, pos), "boxed pointee"))
+			}
+		}
+	}
 	switch a := addr.(type) {
 	case *PtrV:
 		cur, ok := st.cells[a.cell]
@@ -583,7 +598,8 @@ func (x *Exec) store(st *State, addr Value, v Value, pos token.Pos) {
 		}
 		st.cells[a.cell] = x.update(cur, a.path, v)
 	case *ElemAddr:
-		nv := x.mustTerm(v, "slice element store")
+		oldE := Select(slArr(a.slice), a.idx, elemSortOfSlice(x.w, a.slice.Sort))
+		nv := x.mustTerm(x.update(oldE, a.path, v), "slice element store")
 		ns := mkSlice(a.slice.Sort, Store(slArr(a.slice), a.idx, nv), slLen(a.slice), slNil(a.slice))
 		fr := st.frames[a.frame]
 		fr.env[a.origin] = ns
@@ -678,7 +694,7 @@ func (x *Exec) runBlock(st *State, b *ssa.BasicBlock, pred *ssa.BasicBlock, k co
 		}
 		for i, p := range b.Preds {
 			if p == pred {
-				phiVals = append(phiVals, x.get(st, phi.Edges[i]))
+				phiVals = append(phiVals, x.boxIfPtr(st, x.get(st, phi.Edges[i]), phi.Type()))
 				phis = append(phis, phi)
 				break
 			}
@@ -792,6 +808,8 @@ func (x *Exec) step(st *State, ins ssa.Instruction) {
 		case *PtrV:
 			np := &PtrV{cell: b.cell, path: append(append([]PathEl(nil), b.path...), PathEl{sel: sel})}
 			fr.env[in] = np
+		case *ElemAddr:
+			fr.env[in] = &ElemAddr{origin: b.origin, frame: b.frame, slice: b.slice, idx: b.idx, path: append(append([]PathEl(nil), b.path...), PathEl{sel: sel})}
 		case *Term:
 			if strings.HasPrefix(b.Sort, "Ptr_") {
 				// read-only view into a boxed value
@@ -1132,6 +1150,10 @@ func runeToString(r *Term) *Term {
 	if r.Kind == KInt {
 		return StrT(string(rune(r.I)))
 	}
+	if r.Kind == KApp && r.Op == "str.to_code" && r.Args[0].Kind == KApp && r.Args[0].Op == "str.at" {
+		// string(s[i]): a defined function of the one-character string s[i:i+1]
+		return App("byte_str", "String", r.Args[0])
+	}
 	one := App("str.from_code", "String", r)
 	two := Concat(App("str.from_code", "String", Add(IntT(0xC0), App("div", "Int", r, IntT(64)))),
 		App("str.from_code", "String", Add(IntT(0x80), App("mod", "Int", r, IntT(64)))))
@@ -1247,6 +1269,17 @@ func (x *Exec) doTypeAssert(st *State, in *ssa.TypeAssert) {
 		return
 	}
 	t := x.mustTerm(v, "type assert")
+	if t.Sort == "Opaque" && x.w.sortOf(in.AssertedType) == "Opaque" {
+		// interface-to-same-interface assertion (method value on an interface): non-nil check
+		nn := Not(Eq(t, VarT("opaque_nil", "Opaque")))
+		if in.CommaOk {
+			fr.env[in] = &TupleV{vals: []Value{t, nn}}
+			return
+		}
+		x.oblige(st, "safety", "nil-iface:"+x.srcAt(in.Pos()), []string{"C13"}, nn, in.Pos())
+		fr.env[in] = t
+		return
+	}
 	if t.Sort != "Dyn" {
 		x.outside = "type assertion on " + t.Sort
 		fr.env[in] = x.havocOfType(in.Name(), in.Type())
@@ -1433,6 +1466,24 @@ func (x *Exec) handleLoopHead(st *State, fr *Frame, lp *Loop, b, pred *ssa.Basic
 	return true
 }
 
+// boxIfPtr converts a handle to a non-handle struct into an immutable boxed value
+// when it flows into a phi (pointer-valued loop variables such as list cursors).
+func (x *Exec) boxIfPtr(st *State, v Value, t types.Type) Value {
+	pv, ok := v.(*PtrV)
+	if !ok || len(pv.path) != 0 {
+		return v
+	}
+	named, ok := pv.cell.typ.(*types.Named)
+	if !ok || isHandleType(named) {
+		return v
+	}
+	if _, isSt := named.Underlying().(*types.Struct); !isSt {
+		return v
+	}
+	ps := x.w.sortOf(types.NewPointer(named))
+	return Mk("box_"+ps, x.mustTerm(x.load(st, pv, nil, token.NoPos), "boxed pointee"))
+}
+
 func (x *Exec) setPhisFromPred(st *State, fr *Frame, b, pred *ssa.BasicBlock) {
 	var vals []Value
 	var phis []*ssa.Phi
@@ -1443,7 +1494,7 @@ func (x *Exec) setPhisFromPred(st *State, fr *Frame, b, pred *ssa.BasicBlock) {
 		}
 		for i, p := range b.Preds {
 			if p == pred {
-				vals = append(vals, x.get(st, phi.Edges[i]))
+				vals = append(vals, x.boxIfPtr(st, x.get(st, phi.Edges[i]), phi.Type()))
 				phis = append(phis, phi)
 				break
 			}
@@ -1461,6 +1512,12 @@ func (x *Exec) concreteLoop(st *State, fr *Frame, lp *Loop, b, pred *ssa.BasicBl
 	last, ok := b.Instrs[len(b.Instrs)-1].(*ssa.If)
 	if !ok {
 		return false
+	}
+	if lp.blocks[b.Succs[0]] && lp.blocks[b.Succs[1]] {
+		return false // the header test is not the loop exit
+	}
+	if _, isConst := last.Cond.(*ssa.Const); isConst {
+		return false // `for { ... }`: no bound to unroll to
 	}
 	tmp := map[ssa.Value]Value{}
 	lookup := func(v ssa.Value) Value {
@@ -1593,6 +1650,29 @@ func (x *Exec) autoInvariants(st *State, fr *Frame, lp *Loop, b *ssa.BasicBlock)
 		}
 		iv, _ := constant.Int64Val(init.Value)
 		out = append(out, autoInv{name: phiName(phi), t: Cmp(">=", cur, IntT(iv))})
+		// range-index shape: header tests (phi + c) < L with L defined outside the loop
+		if last, ok := b.Instrs[len(b.Instrs)-1].(*ssa.If); ok {
+			if cmp, ok := last.Cond.(*ssa.BinOp); ok && cmp.Op == token.LSS {
+				if inc, ok := cmp.X.(*ssa.BinOp); ok && inc.Op == token.ADD && inc.X == ssa.Value(phi) {
+					if c, ok := inc.Y.(*ssa.Const); ok {
+						cv, _ := constant.Int64Val(c.Value)
+						limitOutside := true
+						if li, ok := cmp.Y.(ssa.Instruction); ok && lp.blocks[li.Block()] {
+							limitOutside = false
+						}
+						backIsInc := true
+						for i, p := range b.Preds {
+							if lp.blocks[p] && phi.Edges[i] != ssa.Value(inc) {
+								backIsInc = false
+							}
+						}
+						if lim, ok := fr.env[cmp.Y].(*Term); ok && limitOutside && backIsInc && cv > 0 && lp.blocks[b.Succs[0]] {
+							out = append(out, autoInv{name: phiName(phi) + "-upper", t: Cmp("<", cur, lim)})
+						}
+					}
+				}
+			}
+		}
 	}
 	return out
 }
@@ -1640,4 +1720,67 @@ func (x *Exec) contractError(c *Clause, err error) {
 
 func (x *Exec) srcAt(pos token.Pos) string {
 	return x.w.srcText(pos)
+}
+
+// simplifyUnder replaces boolean atoms known from the path condition by their
+// truth value inside t and re-folds.  Purely an optimisation.
+func simplifyUnder(t *Term, pc *PC) *Term {
+	facts := map[string]*Term{}
+	for q := pc; q != nil; q = q.parent {
+		a := q.t
+		val := True
+		if a.Kind == KApp && a.Op == "not" {
+			a = a.Args[0]
+			val = False
+		}
+		if a.Kind == KQuant || a.Kind == KBool {
+			continue
+		}
+		if len(a.String()) > 300 {
+			continue
+		}
+		if _, ok := facts[a.String()]; !ok {
+			facts[a.String()] = val
+		}
+		// equalities with constants: x = c
+		if val == True && a.Kind == KApp && a.Op == "=" && len(a.Args) == 2 && a.Args[1].isConst() && !a.Args[0].isConst() {
+			if _, ok := facts[a.Args[0].String()]; !ok {
+				facts[a.Args[0].String()] = a.Args[1]
+			}
+		}
+	}
+	if len(facts) == 0 {
+		return t
+	}
+	return replaceAtoms(t, facts)
+}
+
+func replaceAtoms(t *Term, facts map[string]*Term) *Term {
+	if t.Kind == KVar || t.Kind == KApp {
+		if v, ok := facts[t.String()]; ok && v.Sort == t.Sort {
+			return v
+		}
+	}
+	switch t.Kind {
+	case KApp:
+		args := make([]*Term, len(t.Args))
+		changed := false
+		for i, a := range t.Args {
+			args[i] = replaceAtoms(a, facts)
+			if args[i] != a {
+				changed = true
+			}
+		}
+		if !changed {
+			return t
+		}
+		return rebuild(t.Op, t.Sort, args)
+	case KQuant:
+		b := replaceAtoms(t.Args[0], facts)
+		if b == t.Args[0] {
+			return t
+		}
+		return Quant(t.Op, t.Bound, b)
+	}
+	return t
 }
